@@ -37,6 +37,7 @@ Inductive mkind :=
 | KIterEmpty                 (* yield from () *)
 | KDebugStr                  (* DebugUndefined.__str__ *)
 | KStrOfSelf                 (* return str(self) *)
+| KEscStrOfSelf              (* return str(escape(str(self))) -- markupsafe.escape of the printed text *)
 | KLogSuper (m : mname)      (* _log_message(self); return super().m() *)
 | KHashNone                  (* __hash__ = None (explicit, or implied by defining __eq__ alone) *)
 | KInit | KMessage | KAiterEmpty | KOther.
@@ -131,6 +132,14 @@ Definition kind_sem (c : cname) (p : party) (a : arg) (vc sup : mname -> arg -> 
       let '(r, l) := vc m_str ANone in
       match r with
       | MRet VStr0 | MRet VStrX | MRet (VDebug _) | MRaise _ => (r, l)
+      | _ => (MUnmod, l)
+      end
+  | KEscStrOfSelf =>
+      let '(r, l) := vc m_str ANone in
+      match r with
+      | MRet VStr0 => (MRet VStr0, l)                       (* escape("") = "" *)
+      | MRet VStrX | MRet (VDebug _) => (MRet VStrX, l)     (* some text, escaped *)
+      | MRaise q => (MRaise q, l)
       | _ => (MUnmod, l)
       end
   | KLogSuper m => let '(r, l) := sup m ANone in (r, LWarn p :: l)
